@@ -878,6 +878,78 @@ def _lost_reader_failures():
     return fails, n
 
 
+def _ifcreate_args_failures():
+    """Bounded: redo-ifcreate with several paths, on the real binaries: for every list of 1..3 paths over {present, absent-a,
+    absent-b} that names the existing one, the command fails and the script that ran it (sh -e) fails; for the lists that do
+    not, it succeeds.  -> (failures, n) or None"""
+    import itertools
+    bindir = build_redo_bin()
+    if not bindir:
+        return None
+    env = {k: v for k, v in os.environ.items() if not k.startswith('REDO') and k != 'MAKEFLAGS'}
+    env['PATH'] = bindir + ':' + env.get('PATH', '')
+    work = tempfile.mkdtemp(prefix='redo-verif-ifc.', dir='/var/tmp')
+    fails, n = [], 0
+    try:
+        for k in (1, 2, 3):
+            for args in itertools.permutations(['present', 'absent-a', 'absent-b'], k):
+                n += 1
+                proj = os.path.join(work, 'p%d' % n)
+                os.makedirs(proj)
+                open(os.path.join(proj, 'present'), 'w').write('x\n')
+                open(os.path.join(proj, 'conf.do'), 'w').write('redo-ifcreate %s\necho built\n' % ' '.join(args))
+                r = subprocess.run(['redo', '--no-log', 'conf'], cwd=proj, env=env, capture_output=True, text=True, timeout=60)
+                should_fail = 'present' in args
+                if (r.returncode != 0) != should_fail or os.path.exists(os.path.join(proj, 'conf')) == should_fail:
+                    fails.append(dict(input='present exists; conf.do = "redo-ifcreate %s; echo built"; redo conf' % ' '.join(args),
+                                      observed='exit %d, conf %s' % (r.returncode, 'built' if os.path.exists(os.path.join(proj, 'conf')) else 'not built'),
+                                      clause='declaring redo-ifcreate for a path that exists is an error, wherever it stands in the argument list; for absent paths it succeeds'))
+                shutil.rmtree(proj, ignore_errors=True)
+    finally:
+        shutil.rmtree(work, ignore_errors=True)
+    return fails, n
+
+
+def _temp_collision_failures():
+    """Bounded: two different targets of one directory built at the same time never share a temporary, on the real binaries.
+    Pairs whose names are close: x.o / x.d under default.o.do + default.d.do, report.html / report.txt, x / x.redo,
+    two 250-byte names with a common 246-byte prefix (the unchanged tree refuses those: ENAMETOOLONG), a / a.b.  Each script
+    writes a first line to $3, waits, appends a second.  `redo -j2 A B`: when both succeed, each target holds exactly its own
+    two lines.  -> (failures, n) or None"""
+    bindir = build_redo_bin()
+    if not bindir:
+        return None
+    env = {k: v for k, v in os.environ.items() if not k.startswith('REDO') and k != 'MAKEFLAGS'}
+    env['PATH'] = bindir + ':' + env.get('PATH', '')
+    work = tempfile.mkdtemp(prefix='redo-verif-tmp.', dir='/var/tmp')
+    fails, n = [], 0
+    body = 'echo "$1 line 1" >"$3"\nsleep 0.4\necho "$1 line 2" >>"$3"\n'
+    long_ = 'n' * 246
+    pairs = [('x.o', 'x.d', ['default.o.do', 'default.d.do']), ('report.html', 'report.txt', ['default.html.do', 'default.txt.do']),
+             ('x', 'x.redo', ['default.do']), (long_ + '-one', long_ + '-two', ['default.do']), ('a', 'a.b', ['default.do', 'default.b.do'])]
+    try:
+        for a, b, dofiles in pairs:
+            n += 1
+            proj = os.path.join(work, 'p%d' % n)
+            os.makedirs(proj)
+            for d in dofiles:
+                open(os.path.join(proj, d), 'w').write(body)
+            r = subprocess.run(['redo', '--no-log', '-j2', a, b], cwd=proj, env=env, capture_output=True, text=True, timeout=60)
+            got = {t: (open(os.path.join(proj, t)).read() if os.path.exists(os.path.join(proj, t)) else None) for t in (a, b)}
+            hist = 'redo -j2 %s %s (scripts write line 1 to $3, sleep, append line 2)' % (a[:40], b[:40])
+            if r.returncode == 0:
+                for t in (a, b):
+                    if got[t] != '%s line 1\n%s line 2\n' % (t, t):
+                        fails.append(dict(input=hist, observed='exit 0; %s holds %r' % (t[:40], got[t] if got[t] is None else got[t][-80:]),
+                                          clause='a target becomes exactly what ITS script wrote to ITS $3: two targets never share a temporary'))
+            leftovers = [f for f in os.listdir(proj) if f.endswith('.redo.tmp')]
+            if leftovers:
+                fails.append(dict(input=hist, observed='left behind: %s' % [f[:40] for f in leftovers], clause='no temporary output file is left behind'))
+    finally:
+        shutil.rmtree(work, ignore_errors=True)
+    return fails, n
+
+
 def _corpus_failures(prop):
     """Bounded: the demonstration scripts of the seeded changes kept for this property (seeded/<id>/demo/demo.sh, listed in
     seeded/corpus.json with the clause each one checks).  Each is a concrete history with the real binaries that exits 0
@@ -1047,6 +1119,20 @@ def conformance(prop, unit_names, pins_changed, labels_props):
             out.append(dict(oid='gluebins/ifchange_build/ifchange.every_argument_goes_through_the_builder', msg='clause fails on the real binaries for a concrete history (bounded probe cycle-shapes, %d histories)' % r[1],
                             where=REPO + '/src/bin/redo/ifchange.rs:run', site=None, text=hits[0]['clause'], rendered=json.dumps(hits[:6], indent=1), inputs=[h['input'] for h in hits],
                             fn='ifchange_build', label='ifchange.every_argument_goes_through_the_builder', props=['C12']))
+    if 'gluebins' in unit_names and prop == 'C14':
+        r = _ifcreate_args_failures()
+        if r and r[0]:
+            hits = r[0]
+            out.append(dict(oid='gluebins/ifcreate_record/ifcreate.existing_path_is_error', msg='clause fails on the real binaries for a concrete input (bounded probe ifcreate-args, %d inputs)' % r[1],
+                            where=REPO + '/src/bin/redo/ifcreate.rs:run', site=None, text=hits[0]['clause'], rendered=json.dumps(hits[:6], indent=1), inputs=[h['input'] for h in hits],
+                            fn='ifcreate_record', label='ifcreate.existing_path_is_error', props=['C14']))
+    if 'dofiles' in unit_names and prop in ('C04', 'C07', 'C13'):
+        r = _temp_collision_failures()
+        if r and r[0]:
+            hits = r[0]
+            out.append(dict(oid='dofiles/start_self_arguments/args.temp_beside_target', msg='clause fails on the real binaries for a concrete input (bounded probe temp-collision, %d pairs)' % r[1],
+                            where=REPO + '/src/builder.rs:start_self', site=None, text=hits[0]['clause'], rendered=json.dumps(hits[:6], indent=1), inputs=[h['input'] for h in hits],
+                            fn='start_self_arguments', label='args.temp_beside_target', props=[prop]))
     if 'logs' in unit_names and prop in ('C10', 'C09', 'C18'):
         r = _lost_reader_failures()
         if r and r[0]:
@@ -1118,6 +1204,10 @@ def bounded(prop, unit_names, labels_props):
         if prop == 'C08':
             extra.append(('cheatpipe', _cheatpipe_failures, 'tokens/setup_cheat_fds/setup.own_jobserver_owns_its_debts', lambda h: True))
             extra.append(('conserve', _conserve_failures, 'tokens/do_force_return_tokens/exit.one_token', lambda h: True))
+        if prop == 'C14':
+            extra.append(('ifcreate-args', _ifcreate_args_failures, 'gluebins/ifcreate_record/ifcreate.existing_path_is_error', lambda h: True))
+        if prop in ('C04', 'C07'):
+            extra.append(('temp-collision', _temp_collision_failures, 'dofiles/start_self_arguments/args.temp_beside_target', lambda h: True))
         if prop in ('C10', 'C09', 'C18'):
             extra.append(('lost-reader', _lost_reader_failures, 'logs/rawlog_write_line/rawlog.a_failed_write_is_not_fatal', lambda h: True))
         if prop == 'C12':
